@@ -26,7 +26,7 @@ from ..recipes import ref as R
 
 LEVEL = "exploration"
 BUDGET_S = {"quick": 420, "thorough": 2400}
-MAXLEN = {"quick": 2, "thorough": 4}
+MAXLEN = {"quick": 2, "thorough": 3}  # 26 operations: 26^3 sequences x 4 base models is what fits the thorough budget
 N_RANDOM = {"quick": 6, "thorough": 200}
 
 a_, b_, c_ = ["var", "a"], ["var", "b"], ["var", "c"]
